@@ -1,1 +1,4 @@
--- property theorems
+import AvroProofs.Lemmas.Varint
+import AvroProofs.Lemmas.Datum
+import AvroProofs.Lemmas.RoundTrip
+import AvroProofs.C01
